@@ -132,13 +132,65 @@ Theorem C13_topology_3quads_closed : forall (P : Type) (O : pops P) (r r' : raw 
 Proof. exact @q3_core_closed. Qed.
 Print Assumptions C13_topology_3quads_closed.
 
-(* one refinement of loop_subdivision preserves the half-edge criterion of an oriented manifold *)
+(* ------------------------------------------------------------------ oriented manifoldness (every directed edge once,
+   faces on distinct in-range vertices) is preserved *)
 Theorem C13_topology_loop_manifold : forall (P : Type) (O : pops P) (r r' : raw P),
   loop_step O r = Ok r' ->
   Forall (covered (re r)) (rf r) -> oriented_tri (nV r) (rf r) -> simple_tri (rf r) ->
   oriented_tri (nV r') (rf r').
 Proof. exact @loop_step_oriented. Qed.
 Print Assumptions C13_topology_loop_manifold.
+
+Theorem C13_topology_loop_simple : forall (P : Type) (O : pops P) (r r' : raw P),
+  loop_step O r = Ok r' ->
+  Forall (covered (re r)) (rf r) -> oriented_tri (nV r) (rf r) -> simple_tri (rf r) -> simple_tri (rf r').
+Proof. exact @loop_step_simple. Qed.
+Print Assumptions C13_topology_loop_simple.
+
+(* loop_subdivision(n) as a whole, any n, on an oriented simple triangle surface *)
+Theorem C13_topology_loop_operation : forall (P : Type) (O : pops P) (s s' : sstate) (n : Z),
+  sstep O s (Loop n) = Ok s' ->
+  WF (cur s) -> oriented_tri (nV (cur s)) (rf (cur s)) -> simple_tri (rf (cur s)) ->
+  WF (cur s') /\ oriented_tri (nV (cur s')) (rf (cur s')) /\ simple_tri (rf (cur s')).
+Proof. exact @loop_operation_manifold. Qed.
+Print Assumptions C13_topology_loop_operation.
+
+Theorem C13_topology_3quads_manifold : forall (P : Type) (O : pops P) (r r' : raw P),
+  q3_core O r = Ok r' ->
+  Forall (covered (re r)) (rf r) -> oriented_tri (nV r) (rf r) -> oriented_poly (nV r') (rf r').
+Proof. exact @q3_core_oriented. Qed.
+Print Assumptions C13_topology_3quads_manifold.
+
+Theorem C13_topology_fan_manifold : forall (P : Type) (O : pops P) (r r' : raw P) (f : Z),
+  split_face_as_fan O r f = Ok r' -> oriented_poly (nV r) (rf r) -> oriented_poly (nV r') (rf r').
+Proof. exact @fan_oriented. Qed.
+Print Assumptions C13_topology_fan_manifold.
+
+(* guard: the diagonal B-D along which the quad is cut is not joined yet (see C13_triangulate_nonsimple_refuted) *)
+Theorem C13_topology_quad_split_manifold_partial : forall (P : Type) (O : pops P) (r r' : raw P) (f A B C D : Z),
+  getz (rf r) f = Ok [A; B; C; D] -> triangulate_face O r f = Ok r' ->
+  ~ In (B, D) (dedges_all (rf r)) -> ~ In (D, B) (dedges_all (rf r)) ->
+  oriented_poly (nV r) (rf r) -> oriented_poly (nV r') (rf r').
+Proof. exact @quad_split_oriented. Qed.
+Print Assumptions C13_topology_quad_split_manifold_partial.
+
+(* the refined edge count of loop_subdivision, hence its Euler characteristic *)
+Theorem C13_counts_loop_edges : forall (P : Type) (O : pops P) (r r' : raw P),
+  loop_step O r = Ok r' -> WF r -> oriented_tri (nV r) (rf r) -> simple_tri (rf r) -> exact_edges r ->
+  nE r' = 2 * nE r + 3 * nF r.
+Proof. exact @loop_step_edge_count. Qed.
+Print Assumptions C13_counts_loop_edges.
+
+Theorem C13_euler_loop : forall (P : Type) (O : pops P) (r r' : raw P),
+  loop_step O r = Ok r' -> WF r -> oriented_tri (nV r) (rf r) -> simple_tri (rf r) -> exact_edges r ->
+  chi2 r' = chi2 r.
+Proof. exact @euler_loop_full. Qed.
+Print Assumptions C13_euler_loop.
+
+Theorem C13_accepts_prepared_surface_exact : forall (P : Type) (V : list P) (F : list (list Z)),
+  input_ok (Zlen V) F -> exact_edges (pr (prepare (mkraw V [] F []))).
+Proof. exact @prepared_input_exact. Qed.
+Print Assumptions C13_accepts_prepared_surface_exact.
 
 (* ================================================================== geometry over any field *)
 Theorem C13_geometry_midpoints :
